@@ -38,6 +38,9 @@ def run_demo(repo, seeddir):
         dst = os.path.join(repo, "zz_seed_demo_test.go")
         shutil.copy(demo, dst)
         race = ["-race"] if ("-race" in src) else []
+        m = re.search(r"^//go:build (\w+)\s*$", src, re.M)
+        if m:
+            race += ["-tags", m.group(1)]
         try:
             rc, out = sh(["go", "test", "-vet=off", "-count=1", "-timeout", "300s"] + race + ["-run", "^(" + "|".join(names) + ")$", "."], repo)
         finally:
